@@ -171,3 +171,12 @@ package wire
 //@ func (*ClientConn).waitForConnected
 //@   props C15
 //@   assert call Write: typeis(arg0, *message.ConnectRequest) && unbox(arg0, *message.ConnectRequest) != nil && unbox(arg0, *message.ConnectRequest).PingInterval == ite(pingInterval == 0, defaultPingIntervalForServer, pingInterval) && unbox(arg0, *message.ConnectRequest).PingTimeout == ite(pingTimeout == 0, defaultPingTimeoutForServer, pingTimeout)
+
+// ---------------------------------------------------------------- C03: metadata subscriptions
+// Every subscription gets a channel of its own (one consumer per channel keeps a source node's
+// metadata in arrival order) and exactly that channel is registered under (alias, source node).
+//@ func (*ClientConn).SubscribeDownstreamMeta
+//@   props C03
+//@   requires c.downstreams != nil && c.downstreams.mu != nil && c.downstreams.metadata != nil
+//@   ensures result1 == nil && fresh(result0) && cap(result0) >= 1
+//@   ensures has(c.downstreams.metadata, alias) && has(c.downstreams.metadata[alias], srcNodeID) && c.downstreams.metadata[alias][srcNodeID] == result0
